@@ -636,3 +636,11 @@ def run(ctx):
             ctx.broken_tie("model oracle failed", (em or "")[-500:])
             continue
         evaluate(ctx, impl, hs, mo, io, "generated")
+    # ---- thorough: independent re-check of the compiled proofs with coqchk
+    if thorough and os.path.exists(os.path.join(ctx.coqdir, "Properties_C13.vo")):
+        rc, o, e = vlib.sh("timeout 900 coqchk -o -silent -Q . Props Props.Properties_C13", cwd=ctx.coqdir, timeout=950)
+        txt = o + e
+        ok = rc == 0 and "Axioms: <none>" in txt and "type-in-type: <none>" in txt
+        ctx.extra["coqchk"] = "ok: axioms <none>, no type-in-type, no unsafe fixpoints" if ok else txt[-800:]
+        if not ok:
+            ctx.broken_tie("coqchk does not accept Props.Properties_C13", txt[-800:])
